@@ -411,9 +411,8 @@ def check_rest(shape, pipe, tier, seed, res):
     final = pos[-1][2]
     # (the statement's measurable clauses are the sinking bound and the rest
     # height; residual jitter speed is recorded, not judged)
-    res['extra']['max_final_vertical_speed'] = max(
-        res['extra'].get('max_final_vertical_speed', 0.0),
-        float(abs(vel[-1][2])))
+    res['extra'].setdefault('final_vertical_speeds', []).append(
+        round(float(abs(vel[-1][2])), 4))
     if pen > 0.05 or abs(final - want) > 0.005:
       res['violations'].append(dict(
           key='C06:resting:%s' % pipe,
